@@ -201,10 +201,12 @@ def lookup_case(policy, query_form):
             api.sorted_facts(times, extra=[j, r, 0, last])
         if policy == "infeq":
             api.check(P + "/not_after_query", api.le(tsi(r), qsi))
-            api.check(P + "/is_last_such", api.implies(api.le(tsi(j), qsi), api.or_(api.le(j, r), api.eq(tsi(j), tsi(r)))))
+            # "the last sample not after it": among samples recorded at the same time, the one of highest index
+            api.check(P + "/is_last_such", api.implies(api.le(tsi(j), qsi), api.le(j, r)))
         elif policy == "supeq":
             api.check(P + "/not_before_query", api.le(qsi, tsi(r)))
-            api.check(P + "/is_first_such", api.implies(api.le(qsi, tsi(j)), api.or_(api.le(r, j), api.eq(tsi(j), tsi(r)))))
+            # "the first sample not before it": among samples recorded at the same time, the one of lowest index
+            api.check(P + "/is_first_such", api.implies(api.le(qsi, tsi(j)), api.le(r, j)))
         else:
             dr = abs_(api, tsi(r) - qsi)
             dj = abs_(api, tsi(j) - qsi)
